@@ -688,7 +688,13 @@ func omissions(r *simrt.Rand, q *Query) []Hostile {
 			pos.Value = mk().Value
 			hostile := &pb.Query{Id: 9, Expr: root}
 			what := fmt.Sprintf("%s at position %d", names[di], pi)
-			switch r.Intn(4) {
+			switch r.Intn(5) {
+			case 4:
+				hostile.GroupBy = gb
+				if len(gb) == 0 {
+					hostile.GroupBy = []string{"a"}
+				}
+				add(what+" with group-by, in a batch", req(valid(), hostile, valid()))
 			case 0:
 				hostile.GroupBy = gb
 				add(what+" with group-by", req(hostile))
@@ -726,6 +732,16 @@ func genC14(c *Ctx) any {
 	cs := &C14Case{Cache: r.Chance(2, 3), Preload: r.Chance(1, 2)}
 	cs.Data.Spec = GenDataSpec(c.Rand("data"), r.Range(1, 80), false)
 	utf8Spec(cs.Data.Spec)
+	// the fixture stays ordinary (what is unusual here comes in through requests): a tree whose WRITER trips over
+	// long strings is C01/C05's business and would only keep this check from deciding
+	for i := range cs.Data.Spec.Cols {
+		if cs.Data.Spec.Cols[i].Kind == "huge" {
+			cs.Data.Spec.Cols[i].Kind = "utf8"
+		}
+		if len(cs.Data.Spec.Cols[i].Name) > 100 {
+			cs.Data.Spec.Cols[i].Name = S(fmt.Sprintf("k%d", i))
+		}
+	}
 	si := infoOf(cs.Data.Spec.Expand())
 	var pool []Hostile
 	var bases []*Query
@@ -764,6 +780,43 @@ func genC14(c *Ctx) any {
 			if b, err := proto.Marshal(req); err == nil {
 				pool = append(pool, Hostile{Wire: S(b), What: fmt.Sprintf("batch of %d failing queries (variant %d)", k, variant)})
 			}
+		}
+	}
+	// well-formed but unusually large requests: long strings (fixed-size buffers), batches beyond any
+	// plausible internal queue length
+	col := firstCol(si)
+	for _, n := range []int{255, 256, 257, 300, 1000, 4096, 65536, 300000} {
+		if n > 4096 && !c.Thorough() && r.Chance(1, 2) {
+			continue
+		}
+		long := strings.Repeat("L", n)
+		for variant := 0; variant < 4; variant++ {
+			var q *Query
+			switch variant {
+			case 0:
+				q = &Query{Expr: Eq(col, long)}
+			case 1:
+				q = &Query{Expr: Eq(long, "v0")}
+			case 2:
+				q = &Query{Expr: And(Eq(col, "v0"), Not(Eq(col, long)))}
+			default:
+				q = &Query{Expr: Eq(col, "v0"), GroupBy: []S{S(long)}}
+			}
+			if b, err := proto.Marshal(&pb.QueryRequest{Queries: []*pb.Query{q.ToProto(0)}}); err == nil {
+				pool = append(pool, Hostile{Wire: S(b), What: fmt.Sprintf("well-formed query with a string of %d bytes (variant %d)", n, variant)})
+			}
+		}
+	}
+	for _, k := range []int{258, 272, 273, 300, 1000, 5000} {
+		if k > 300 && !c.Thorough() && r.Chance(1, 2) {
+			continue
+		}
+		req := &pb.QueryRequest{}
+		for i := 0; i < k; i++ {
+			req.Queries = append(req.Queries, (&Query{Expr: Eq(col, fmt.Sprintf("v%d", i%7))}).ToProto(0))
+		}
+		if b, err := proto.Marshal(req); err == nil {
+			pool = append(pool, Hostile{Wire: S(b), What: fmt.Sprintf("batch of %d well-formed queries", k)})
 		}
 	}
 	leaf := Eq(firstCol(si), "v0").ToProto()
